@@ -243,7 +243,7 @@ Proof.
     unfold WF, inp, lsize. cbn [set_line c_err c_cursor c_line c_cap c_ps c_finish c_remain].
     rewrite Hd. change (zlen (@nil Z)) with 0. unfold LINE_BUFFER_SIZE in *. unfold lsize in *.
     splits; auto; try lia.
-  - splits; try reflexivity. unfold WF. splits; auto.
+  - splits; try reflexivity. unfold WF. splits; auto; lia.
 Qed.
 Lemma compact_props s : WF s ->
   WF (compact s) /\ inp (compact s) = inp s /\ c_finish (compact s) = c_finish s
